@@ -1,7 +1,9 @@
 """C13 - ill-formed LVS schemas and models are rejected; accepted models always terminate
 (src/ndn/app_support/light_versec/{compiler,checker}.py, docs/src/lvs/binary-format.rst)."""
 import copy
+import types
 import lvs_common as L
+import strict_tlv as S
 
 from props import lvs_extract
 
@@ -69,7 +71,13 @@ RULE = ('two streams. (a) schemas: generated well-formed schemas (references inc
         'nodes, an extra unreachable node, versions around the one version binary-format.rst describes - the oracle takes the '
         'recognised version from the document, not from binary.py; quick: one structural corruption in every kind of node: root, leaf, '
         'only pattern edges, only value edges, both), re-encoded with the real encoder - then optionally truncated at an element '
-        'boundary / cut / extended by unknown, critical, duplicate or empty elements - and loaded with Checker.load, then step-capped match/check on names. '
+        'boundary / cut / extended by unknown, critical, duplicate or empty elements, or with ONE element of the saved bytes deleted / written '
+        'twice (every Type path of binary-format.rst: first, last and one more occurrence; Version, StartId, NamedPatternCnt and the first '
+        'NodeId are deleted from every model) - and loaded with Checker.load, then step-capped match/check on names. The documented sanity '
+        'rules are judged on an independent reading of the very bytes given to Checker.load, by a reader written from the layout and TLV '
+        'numbers of binary-format.rst (an absent element is absent, whatever default the field classes of binary.py declare); only bytes '
+        'that are not in the documented layout are judged on what LvsModel.parse found. Every field-level corruption is also handed, as an '
+        'object, to the other entry point Checker(model, fns) and judged by the same rules. '
         'non-trivial = an injected error, or a corrupted model; distinct = distinct cases. '
         'Model side of stream (a): schema AST -> Lean compiler model -> Lean loader model; compared with the real compile_lvs / Checker: '
         'SemanticError or node pool (+ symbol table), and the loader verdict')
@@ -333,7 +341,119 @@ def apply_wire_mutation(wire, mut):
         return wire[:offs[max(0, len(offs) - 1 - mut[2])]]
     if mut[1] == 'cut':
         return wire[:max(0, len(wire) - mut[2])]
+    if mut[1] in ('del', 'dup'):
+        return wire_edit(wire, mut[2], mut[1])
     return wire + bytes.fromhex(mut[2])
+
+
+# ---------------------------------------------------------------- independent reading of the wire
+# Layout and TLV numbers of binary-format.rst, written down from the document (never from binary.py). The sanity
+# rules are judged on THIS reading of the bytes handed to Checker.load, not on what LvsModel.parse / the field
+# accessors of the library report (a field default in binary.py would otherwise be believed by the oracle).
+def _doc_fs():
+    VAL, TAG, NID = ('Y', 0x21, False), ('U', 0x23, None), ('U', 0x25, None)
+    ARG = ('M', 0x33, False, [VAL, TAG], None)
+    CALL = ('M', 0x31, False, [('Y', 0x27, False), ('R', ARG)], None)
+    OPT = ('M', 0x41, False, [VAL, TAG, CALL], None)
+    CONS = ('M', 0x43, False, [('R', OPT)], None)
+    PE = ('M', 0x53, False, [NID, TAG, ('R', CONS)], None)
+    VE = ('M', 0x51, False, [NID, VAL], None)
+    NODE = ('M', 0x63, False, [NID, ('U', 0x57, None), ('R', ('Y', 0x29, False)), ('R', VE), ('R', PE),
+                               ('R', ('U', 0x55, None))], None)
+    SYM = ('M', 0x67, False, [TAG, ('Y', 0x29, False)], None)
+    return [('U', 0x61, None), NID, ('U', 0x69, None), ('R', NODE), ('R', SYM)]
+
+
+DOC_CONTAINERS = {0x63, 0x51, 0x53, 0x43, 0x41, 0x31, 0x33, 0x67}
+
+
+def doc_read(wire):
+    """the model a reader of binary-format.rst finds in `wire` (absent elements = None), or None when the bytes are
+    not a sequence of the documented elements in the documented order (then the document's sanity rules say nothing)"""
+    try:
+        v = S.strict_parse(_doc_fs(), bytes(wire), False)
+    except (S.Reject, KeyError, IndexError):
+        return None
+    NS = types.SimpleNamespace
+    one = lambda x: None if x is None else x[1]         # noqa
+
+    def arg(a):
+        return NS(value=one(a[0]), tag=one(a[1]))
+
+    def opt(o):
+        fn = None if o[2] is None else NS(fn_id=one(o[2][1][0]), args=[arg(a[1]) for a in o[2][1][1][1]])
+        return NS(value=one(o[0]), tag=one(o[1]), fn=fn)
+
+    def node(n):
+        return NS(id=one(n[0]), parent=one(n[1]), rule_name=[r[1] for r in n[2][1]],
+                  v_edges=[NS(dest=one(e[1][0]), value=one(e[1][1])) for e in n[3][1]],
+                  p_edges=[NS(dest=one(e[1][0]), tag=one(e[1][1]),
+                              cons_sets=[NS(options=[opt(o[1]) for o in c[1][0][1]]) for c in e[1][2][1]]) for e in n[4][1]],
+                  sign_cons=[k[1] for k in n[5][1]])
+    return NS(version=one(v[0]), start_id=one(v[1]), named_pattern_cnt=one(v[2]), nodes=[node(n[1]) for n in v[3][1]],
+              symbols=[NS(tag=one(s[1][0]), ident=one(s[1][1])) for s in v[4][1]])
+
+
+def wire_paths(wire, start=0, end=None, prefix=(), tprefix=()):
+    """(index path, Type path) of every element of an encoded model, outermost first"""
+    end = len(wire) if end is None else end
+    off, i = start, 0
+    while off < end:
+        t, vs, ve = S.read_elem(wire, off, end)
+        yield list(prefix + (i,)), '/'.join('%x' % x for x in tprefix + (t,))
+        if t in DOC_CONTAINERS:
+            yield from wire_paths(wire, vs, ve, prefix + (i,), tprefix + (t,))
+        off, i = ve, i + 1
+
+
+def _tl(n):
+    return bytes([n]) if n < 253 else b'\xfd' + n.to_bytes(2, 'big') if n < 65536 else b'\xfe' + n.to_bytes(4, 'big')
+
+
+def wire_edit(wire, path, op, start=0, end=None):
+    """the encoded model with the element at `path` deleted / written twice; enclosing Lengths follow"""
+    end = len(wire) if end is None else end
+    out, off, i = b'', start, 0
+    while off < end:
+        t, vs, ve = S.read_elem(wire, off, end)
+        el = wire[off:ve]
+        if i != path[0]:
+            out += el
+        elif len(path) == 1:
+            out += b'' if op == 'del' else el + el
+        else:
+            body = wire_edit(wire, path[1:], op, vs, ve)
+            out += _tl(t) + _tl(len(body)) + body
+        off, i = ve, i + 1
+    return out
+
+
+def wire_mutations(m, rng=None, per_type=3):
+    """delete / duplicate one element of the saved model: for every Type path the first, the last and (rng) one more
+    occurrence; the three mandatory header elements first"""
+    wire = bytes(m.encode())
+    by_type = {}
+    for path, tp in wire_paths(wire):
+        by_type.setdefault(tp, []).append(path)
+    out = []
+    for tp, paths in by_type.items():
+        pick = [paths[0], paths[-1]] + ([paths[rng.randrange(len(paths))]] if rng is not None and len(paths) > 2 else [])
+        if per_type is None:
+            pick = paths
+        seen = []
+        for p in pick:
+            if p not in seen:
+                seen.append(p)
+        for p in seen[:per_type]:
+            out += [['wire', 'del', p, tp], ['wire', 'dup', p, tp]]
+    return out
+
+
+def mut_kind(mu):
+    if mu[0] == 'wire':
+        return 'wire:' + mu[1] + ('@' + mu[3] if mu[1] in ('del', 'dup') else '')
+    return mu[0] + ':' + str(mu[2] if mu[0] == 'node' else (mu[3] if mu[0] in ('ve', 'pe') else (mu[5] if mu[0] == 'opt' else '')))
+
 
 
 def doc_rules_broken(m, bny):
@@ -394,7 +514,7 @@ def extract(repo):
 def cases(rng, tier):
     n_sch = 30 if tier == 'quick' else 45      # thorough enumerates EVERY position / corruption of each schema (~700 cases per schema)
     per_inj = 6 if tier == 'quick' else None
-    per_mut = 14 if tier == 'quick' else None
+    per_mut = 18 if tier == 'quick' else None
     fns = L.user_fns(L.FN_NAMES)
     # corpus: the schema of theorem mergedSigner_counterexample (rule-level signing graph acyclic, same name pattern twice)
     yield {'kind': 'schema', 'schema': MERGED_SIGNER, 'inject': None, 'corpus': 'merged-signer'}
@@ -428,12 +548,13 @@ def cases(rng, tier):
             m = _compile(schema)
         except Exception:           # noqa  (the schema-level case above reports it)
             continue
-        muts = mutations(m)
+        # wire level: one element of the saved model deleted / written twice (every Type path of the document)
+        muts = mutations(m) + wire_mutations(m, rng, 3)
         if per_mut is not None:
             rng.shuffle(muts)
             kinds, pick = set(), []
             for mu in muts:
-                kd = (mu[0], mu[2] if mu[0] == 'node' else (mu[3] if mu[0] in ('ve', 'pe') else (mu[5] if mu[0] == 'opt' else mu[1] if mu[0] == 'wire' else '')))
+                kd = mut_kind(mu)
                 if kd not in kinds:
                     kinds.add(kd)
                     pick.append(mu)
@@ -446,7 +567,12 @@ def cases(rng, tier):
                     if cl not in classes:
                         classes.add(cl)
                         strat.append(mu)
-            muts = pick[:per_mut] + muts[:3] + strat
+            # the three mandatory header elements are deleted from every model (Version first: the version rule)
+            header = [mu for mu in muts if mu[0] == 'wire' and mu[1] == 'del' and len(mu[2]) == 1 and mu[3] in ('61', '25', '69')]
+            header.sort(key=lambda mu: mu[2])
+            # ... and the NodeId of the first node (id 0: what a default value of the field would supply)
+            header += sorted((mu for mu in muts if mu[0] == 'wire' and mu[1] == 'del' and mu[3] == '63/25'), key=lambda mu: mu[2])[:1]
+            muts = pick[:per_mut] + muts[:3] + strat + [mu for mu in header if mu not in pick[:per_mut]]
         names = L.gen_names(rng, schema, spec, 5 if tier == 'quick' else 8)
         for mu in muts:
             yield {'kind': 'model', 'schema': schema, 'mut': mu, 'names': names, 'fns': rng.choice([L.FN_NAMES, L.FN_NAMES, ['$eq']])}
@@ -519,7 +645,19 @@ def run_impl(case):
         res['load'] = 'unencodable:' + type(e).__name__
         return res
     res['token'] = L.enc_model(parsed)
-    res['broken'] = doc_rules_broken(parsed, bny)
+    # the documented rules are judged on an independent reading of the bytes given to Checker.load; only when the bytes
+    # are not in the documented layout at all (that reading fails) on what the library's own parser found
+    seen = doc_read(wire)
+    res['reader'] = 'doc' if seen is not None else 'lib'
+    res['broken'] = doc_rules_broken(seen if seen is not None else parsed, bny)
+    if case['mut'][0] != 'wire':
+        # the other entry point: the corrupted object itself, Checker(model, fns)
+        res['broken_mem'] = doc_rules_broken(mutated, bny)
+        try:
+            Checker(copy.deepcopy(mutated), fns)
+            res['direct'] = 'ok'
+        except Exception as e:          # noqa
+            res['direct'] = type(e).__name__
     try:
         ck = Checker.load(wire, fns)
     except Exception as e:              # noqa
@@ -607,6 +745,9 @@ def oracle(case, impl):
         return None
     if impl['broken'] and impl['load'] != 'LvsModelError':
         return f"model breaking the documented sanity rule '{impl['broken']}' is not rejected with LvsModelError (load={impl['load']})"
+    if impl.get('broken_mem') and impl.get('direct') != 'LvsModelError':
+        return (f"in-memory model breaking the documented sanity rule '{impl['broken_mem']}' is not rejected with LvsModelError "
+                f"by Checker(model, fns) ({impl.get('direct')})")
     if impl['load'] == 'ok':
         if any(m[1] == 'NONTERMINATION' for m in impl['matches']):
             return 'match does not terminate on an accepted model'
@@ -631,8 +772,9 @@ def tags(case, impl):
             t.append('corpus:%s:%s' % (case['corpus'], impl['compile'] if impl['compile'] != 'ok' else impl.get('checker', '?')))
         return t
     mu = case['mut']
-    kd = mu[0] + ':' + str(mu[2] if mu[0] == 'node' else (mu[3] if mu[0] in ('ve', 'pe') else (mu[5] if mu[0] == 'opt' else mu[1] if mu[0] == 'wire' else '')))
-    t = ['mut:' + kd, 'load:' + impl['load']]
+    t = ['mut:' + mut_kind(mu), 'load:' + impl['load'], 'rules-read-by:' + str(impl.get('reader'))]
+    if 'direct' in impl:
+        t.append('direct:' + impl['direct'])
     if impl.get('broken'):
         t.append('breaks:' + impl['broken'])
     if impl['load'] == 'ok':
@@ -652,6 +794,8 @@ def finding_key(case, impl, why):
         return 'static-error-not-rejected-' + '-'.join(impl['static_errors'])
     if 'terminate' in why:
         return 'accepted-model-nontermination'
+    if 'in-memory' in why:
+        return 'broken-rule-accepted-in-memory-' + str(impl.get('broken_mem')) + '-' + str(impl.get('direct'))
     return 'broken-rule-accepted-' + str(impl.get('broken')) + '-' + str(impl.get('load'))
 
 
